@@ -11,6 +11,7 @@ import (
 	"os"
 	"path/filepath"
 	"strings"
+	"sync/atomic"
 	"time"
 
 	"perkeep.org/pkg/auth"
@@ -135,11 +136,17 @@ type Server struct {
 	Client   *client.Client
 	// Requests counts HTTP requests issued through HC (raw) for the evidence.
 	Requests int64
+	// Served counts every request that reached the server (atomic).
+	Served int64
 }
 
 // NewServer builds the server exactly the way perkeepd does: high-level JSON
 // -> serverinit.Load (genconfig) -> InstallHandlers on a mux -> HTTP server.
-func NewServer(c Conf) (*Server, error) {
+//
+// With warm, the client performs its discovery request right away (what any
+// earlier client call would have done); the cold case is explored separately
+// by the scenario "client-cold-stat".
+func NewServer(c Conf, warm bool) (*Server, error) {
 	dir := vk.Scratch("c18-" + c.Name())
 	s := &Server{Conf: c, Dir: dir}
 	if c.Storage != "memory" {
@@ -161,7 +168,10 @@ func NewServer(c Conf) (*Server, error) {
 		return nil, fmt.Errorf("serverinit.Load: %w", err)
 	}
 	mux := http.NewServeMux()
-	ts := httptest.NewUnstartedServer(mux)
+	ts := httptest.NewUnstartedServer(http.HandlerFunc(func(w http.ResponseWriter, r *http.Request) {
+		atomic.AddInt64(&s.Served, 1)
+		mux.ServeHTTP(w, r)
+	}))
 	baseURL := "http://" + ts.Listener.Addr().String()
 	shutdown, err := cfg.InstallHandlers(mux, baseURL)
 	if err != nil {
@@ -170,7 +180,7 @@ func NewServer(c Conf) (*Server, error) {
 	}
 	ts.Start()
 	s.TS, s.shutdown = ts, shutdown
-	s.HC = &http.Client{Transport: &http.Transport{MaxIdleConnsPerHost: 4}, Timeout: 60 * time.Second,
+	s.HC = &http.Client{Transport: &http.Transport{MaxIdleConnsPerHost: 4}, Timeout: 300 * time.Second,
 		CheckRedirect: func(*http.Request, []*http.Request) error { return http.ErrUseLastResponse }}
 
 	var am auth.AuthMode = auth.None{}
@@ -184,6 +194,12 @@ func NewServer(c Conf) (*Server, error) {
 	}
 	cl.Logger = log.New(io.Discard, "", 0)
 	s.Client = cl
+	if warm {
+		if _, err := cl.BlobRoot(); err != nil {
+			s.Close()
+			return nil, fmt.Errorf("client discovery: %w", err)
+		}
+	}
 	return s, nil
 }
 
